@@ -23,7 +23,7 @@ FUNCS = {
     'reversed': reversed, 'enumerate': enumerate, 'object': object, 'OrderedDict': OrderedDict,
     'iadd': operator.iadd, 'add': operator.add, 'mul': operator.mul, 'or_': operator.or_,
     'getitem': operator.getitem, 'getattr': getattr, 'setattr': setattr, 'isinstance': isinstance,
-    'range': range, 'zip': zip, 'round': round, 'setitem': operator.setitem,
+    'range': range, 'zip': zip, 'round': round, 'setitem': operator.setitem, 'eq': operator.eq,
     'delitem': operator.delitem, 'delattr': delattr,
 }
 
@@ -493,6 +493,9 @@ class Builder:
             return G.reduction.Count()
         if kind == 'Group':
             return G.grouping.Group(S(r[1]))
+        if kind == 'SumOfGroupSum':
+            # a leaf aggregator whose sub-spec is itself a complete (nested) Group evaluation per item
+            return G.Sum(G.grouping.Group(G.Sum()))
         if kind in ('First', 'Max', 'Min', 'Avg'):
             return getattr(G.grouping, kind)()
         if kind == 'Limit':
